@@ -73,6 +73,21 @@ func init() {
 		s, t := unhx(a[0]), unhx(a[1])
 		return both(ascii.HasSuffixFold(s, t), ascii.HasSuffixFoldString(string(s), string(t))), b01(defHasSuffixFold(s, t)), ""
 	}
+	// ascii.foldalias <hex buffer> <i> <j> <a> <b>: both operands are views of ONE buffer (s = buf[i:j], t = buf[a:b]), as bytes
+	// and as substrings of one string: identity or address shortcuts must not change any answer
+	ops["ascii.foldalias"] = func(a []string) (string, string, string) {
+		buf := unhx(a[0])
+		i, j, x, y := atoi(a[1]), atoi(a[2]), atoi(a[3]), atoi(a[4])
+		s, t := buf[i:j], buf[x:y]
+		str := string(buf)
+		ss, ts := str[i:j], str[x:y]
+		impl := both(ascii.EqualFold(s, t), ascii.EqualFoldString(ss, ts)) + both(ascii.HasPrefixFold(s, t), ascii.HasPrefixFoldString(ss, ts)) +
+			both(ascii.HasSuffixFold(s, t), ascii.HasSuffixFoldString(ss, ts))
+		sc, tc := append([]byte{}, s...), append([]byte{}, t...)
+		want := both(defEqualFold(sc, tc), defEqualFold(sc, tc)) + both(defHasPrefixFold(sc, tc), defHasPrefixFold(sc, tc)) +
+			both(defHasSuffixFold(sc, tc), defHasSuffixFold(sc, tc))
+		return impl, want, ""
+	}
 	ops["ascii.validbyte"] = func(a []string) (string, string, string) {
 		c := byte(atoi(a[0]))
 		return b01(ascii.ValidByte(c)), b01(c < 0x80), ""
@@ -92,6 +107,49 @@ func init() {
 }
 
 func runC20(h *H) {
+	// aliased operands: views of one buffer made of a short pattern repeated with case flips (so that overlapping views
+	// are sometimes equal under folding and sometimes not)
+	NA := 1500
+	if h.Thorough() {
+		NA = 30000
+	}
+	for n := 0; n < NA; n++ {
+		pat := make([]byte, 1+h.Intn(5))
+		for k := range pat {
+			pat[k] = "abcXYZ09_@`{"[h.Intn(12)]
+		}
+		L := 1 + h.Intn(40)
+		buf := make([]byte, L)
+		for k := range buf {
+			c := pat[k%len(pat)]
+			if h.Intn(3) == 0 && c >= 'a' && c <= 'z' {
+				c -= 32
+			} else if h.Intn(3) == 0 && c >= 'A' && c <= 'Z' {
+				c += 32
+			}
+			if h.Intn(25) == 0 {
+				c = byte(h.U64())
+			}
+			buf[k] = c
+		}
+		i := h.Intn(L + 1)
+		j := i + h.Intn(L-i+1)
+		var x, y int
+		switch h.Intn(5) {
+		case 0: // t is a prefix view of s
+			x, y = i, i+h.Intn(j-i+1)
+		case 1: // t is a suffix view of s
+			y = j
+			x = i + h.Intn(j-i+1)
+		case 2: // same start, possibly longer
+			x = i
+			y = x + h.Intn(L-x+1)
+		default:
+			x = h.Intn(L + 1)
+			y = x + h.Intn(L-x+1)
+		}
+		h.Do("ascii.foldalias", hx(buf), strconv.Itoa(i), strconv.Itoa(j), strconv.Itoa(x), strconv.Itoa(y))
+	}
 	L := 72
 	if h.Thorough() {
 		L = 200
